@@ -67,12 +67,12 @@ def box(sym: Sym, st: State):
         st.pc.append(truthy(v) == (Q.Length(sym.t) > 0))
         # extensionality of boxed sequences (tuples/lists passed to uninterpreted functions): equal contents,
         # equal value.  Instantiated pairwise for the sequences boxed in this state (not under binders).
-        if not (st.notes.get("binders") or []):
-            seen = st.notes.get("boxed_seqs") or []
-            if not any(s_.eq(sym.t) for s_, _ in seen):
-                for s_, v_ in seen[-6:]:
-                    if v_.decl().eq(v.decl()):
-                        st.pc.append(z3.Implies(Q.Eq(s_, sym.t), v_ == v))
+        seen = st.notes.get("boxed_seqs") or []
+        if not any(s_.eq(sym.t) for s_, _ in seen):
+            for s_, v_ in seen[-6:]:
+                if v_.decl().eq(v.decl()):
+                    st.pc.append(z3.Implies(Q.Eq(s_, sym.t), v_ == v))
+            if not (st.notes.get("binders") or []):
                 st.notes["boxed_seqs"] = seen + [(sym.t, v)]
         return v
     if k in ("dict", "set"):
